@@ -767,9 +767,16 @@ func checkUserLevels(senderLevel int64, senderID spec.SenderID, oldPowerLevels, 
 
 // checkPowerLevelEventV2 checks that the changes in notification levels are allowed.
 func checkPowerLevelEventV2(sender string, createEvent PDU, oldPowerLevels, newPowerLevels PowerLevelContent) error {
-	// this function isn't called on privileged creator versions so this is safe,
-	// though we should be considering the case where there is no PL event..?
+	// This function isn't called on privileged creator versions, so the sender's level is
+	// the one in the old power levels (which, without a power level event, are the defaults
+	// NewPowerLevelContentFromAuthEvents builds, with the creator's level in them).
 	senderLevel := oldPowerLevels.UserLevel(spec.SenderID(sender))
+	return checkNotificationLevels(senderLevel, oldPowerLevels, newPowerLevels)
+}
+
+// checkNotificationLevels checks that a sender with the given power level is allowed to make
+// the changes in notification levels.
+func checkNotificationLevels(senderLevel int64, oldPowerLevels, newPowerLevels PowerLevelContent) error {
 	type levelPair struct {
 		old    int64
 		new    int64
@@ -832,18 +839,25 @@ func checkPowerLevelEventV2(sender string, createEvent PDU, oldPowerLevels, newP
 	return nil
 }
 
-// checkPowerLevelEventV3 is V2 and checking that the creators don't appear in the PL users map
+// checkPowerLevelEventV3 is V2 with privileged creators, and checking that the creators don't appear in the PL users map
 func checkPowerLevelEventV3(sender string, createEvent PDU, oldPowerLevels, newPowerLevels PowerLevelContent) error {
-	if err := checkPowerLevelEventV2(sender, createEvent, oldPowerLevels, newPowerLevels); err != nil {
-		return err
-	}
-	// Enforce the creator does not appear in the users map
 	var content CreateContent
 	if err := json.Unmarshal(createEvent.Content(), &content); err != nil {
 		return errorf("checkPowerLevelEventV3 unparseable create event content: %s", err.Error())
 	}
 	creators := []string{string(createEvent.SenderID())}
 	creators = append(creators, content.AdditionalCreators...)
+
+	// Creators never appear in the power levels: their level is above every level that does.
+	senderLevel := oldPowerLevels.UserLevel(spec.SenderID(sender))
+	if slices.Contains(creators, sender) {
+		senderLevel = CreatorPowerLevel
+	}
+	if err := checkNotificationLevels(senderLevel, oldPowerLevels, newPowerLevels); err != nil {
+		return err
+	}
+
+	// Enforce the creator does not appear in the users map
 	for userID := range newPowerLevels.Users {
 		if slices.Contains(creators, userID) {
 			return &EventValidationError{Code: 400, Message: fmt.Sprintf("new power levels event must not contain creator '%s'", userID)}
